@@ -4,3 +4,5 @@
 pub mod std_shims;
 #[cfg(kani)]
 pub mod rc_glue;
+#[cfg(kani)]
+pub mod blockrng;
